@@ -20,6 +20,7 @@ func init() {
 		const rel = "client/manager.go"
 		g.raw("def scanIfs : List String := " + leanStrList(ifConds(rel, "scan")))
 		g.raw("def scanCallbackIfs : List String := " + leanStrList(filterContains(ifConds(rel, "scan"), "Origin", "chunks")))
+		g.raw("def scanBookIfs : List String := " + leanStrList(ifCondsTop(rel, "scan")))
 		g.raw("def scanCases : List String := " + leanStrList(caseLabels(rel, "scan")))
 		g.raw("def scanSubject : List String := " + leanStrList(callsOf(rel, "scan", "Sprintf")))
 		g.raw("def scanPoints : List String := " + leanStrList(callsOf(rel, "scan", "Points")))
